@@ -125,8 +125,15 @@ GWord(d, gs, w) ==
             THEN [s1 EXCEPT !.pos = Append(@, [w |-> w, after |-> FALSE, p |-> s1.n])]
        ELSE GKill(s1, "unexpected")
 
+\* several short flags in one item (`-ab`): the flags one after the other
+RECURSIVE GBundle(_, _, _)
+\* (each letter is an item of its own for bpaf: positions keep counting)
+GBundle(d, gs, ss) == IF ss = <<>> THEN gs
+                      ELSE LET s1 == GName(d, gs, Head(ss), FALSE, "") IN
+                           GBundle(d, IF Tail(ss) = <<>> THEN s1 ELSE [s1 EXCEPT !.n = @ + 1], Tail(ss))
 GPlain(d, gs, e) ==
   CASE e.t = "dd"   -> [Close(d, gs) EXCEPT !.posOnly = TRUE]
+    [] e.t = "cluster" -> GBundle(d, gs, e.ss)
     [] e.t = "help" -> [Close(d, gs) EXCEPT !.help = TRUE]
     [] e.t \in {"unk", "ver"} -> GKill(Close(d, gs), "unknown")
     [] e.t = "name" -> GName(d, gs, e.s, FALSE, "")
@@ -185,6 +192,11 @@ LeafAttempt(it, R, envv, acc0) ==
        \* branch fail for good ("phard") - but the word is not the branch's own and may still go elsewhere
        IF R[POOL] = <<>> THEN [res |-> "miss", v |-> "NONE", used |-> {}, left |-> 0, all |-> FALSE]
        ELSE LET h == Head(R[POOL]) IN
+            \* a literal takes the word only if it is exactly its own (another word merely leaves it absent)
+            IF "lit" \in DOMAIN it /\ it.lit # ""
+            THEN (IF h.w = it.lit THEN [res |-> "ok", used |-> {POOL}, left |-> h.p, all |-> FALSE, v |-> "U"]
+                  ELSE [res |-> "miss", v |-> "NONE", used |-> {}, left |-> 0, all |-> FALSE])
+            ELSE
             IF ConvBad(it.vt, h.w) THEN [res |-> "phard", v |-> "NONE", used |-> {}, left |-> 0, all |-> FALSE]
             ELSE [res |-> "ok", used |-> {POOL}, left |-> h.p, all |-> FALSE, v |-> IF it.vt = "int" THEN ToInt(h.w) ELSE h.w]
   ELSE
@@ -366,8 +378,14 @@ GOutcome(d, gs, envv) ==
   IF gs.help THEN [class |-> "stdout", kind |-> "help", path |-> gs.hp] ELSE GFinish(d, gs, envv)
 
 (* ------------------------------------------------------------------ state machine *)
+\* pairs of short flags of the level written as one item (name, letter: strings cannot be taken apart)
+GFlagShorts(d) == UNION {{<<it.shorts[j], it.letters[j]>> : j \in DOMAIN it.shorts} : it \in {x \in GLeaves(d) : x.kind \in {"switch", "reqflag"}}}
+GBundles(d) == IF "clusters" \in DOMAIN d.alpha /\ d.alpha.clusters
+               THEN {[t |-> "cluster", s |-> "", v |-> "", ss |-> <<a[1], b[1]>>, last |-> "", hasv |-> FALSE, txt |-> "-" \o a[2] \o b[2]]
+                     : a \in GFlagShorts(d), b \in GFlagShorts(d)}
+               ELSE {}
 GAlphabet(d) ==
-  UNION {LeafItems(d, it) : it \in GLeaves(d)}
+  UNION {LeafItems(d, it) : it \in GLeaves(d)} \cup GBundles(d)
   \cup {[t |-> "word", s |-> w, v |-> "", txt |-> w] : w \in RangeOf(d.alpha.words)}
   \cup {[t |-> x, s |-> "", v |-> "", txt |-> (CASE x = "dd" -> "--" [] x = "help" -> "--help" [] x = "unk" -> "--zz")]
           : x \in RangeOf(d.alpha.extras)}
